@@ -185,7 +185,16 @@ func (h *fmtHooks) OnStore(c *engine.Ctx, instr ssa.Instruction, addr engine.Ptr
 					if val.Key() != "nil" {
 						o.Fields["#cap"] = str("T")
 					} else if cp, _ := constStr(o.Fields["#cap"]); cp == "T" && c.Heap.Get(addr.Obj, "wrappedErr").Key() != "nil" {
-						c.It.Record(engine.Event{Kind: "uncapture", Instr: instr, Fn: c.Fn, Detail: map[string]string{"cfg": cfgString(ppConfig(c.Heap, addr.Obj))}})
+						via := "root"
+						for _, site := range c.Stack {
+							if site != nil && site.Parent() != nil && strings.HasPrefix(site.Parent().Name(), "doPrint") {
+								via = "loop" // reached through the format loop: the verb is not a modelled constant
+							}
+						}
+						if strings.HasPrefix(c.Fn.Name(), "doPrint") {
+							via = "loop"
+						}
+						c.It.Record(engine.Event{Kind: "uncapture", Instr: instr, Fn: c.Fn, Detail: map[string]string{"cfg": cfgString(ppConfig(c.Heap, addr.Obj)), "via": via}})
 					}
 				}
 			}
